@@ -142,7 +142,7 @@ class C19(object):
                         "workers": rnd.choice([1, 1, 2, 3])} for _ in range(rnd.randint(1, 3))]
         return {"entry": "run_iradon", "ncores": ncores, "ystep": ystep, "ny": ny, "full": full, "nang": nang, "ymin": ymin,
                 "zero_cols": rnd.choice(["none", "none", "halves", "random", "random", "one"]), "segments": rnd.choice([1, 2, 2, 3, 5]),
-                "gs_hist": gs_hist,
+                "gs_hist": gs_hist, "sino_layout": rnd.choice(["c", "c", "f", "view", "list_angles"]),
                 "y0_off_steps": off, "r_frac": rnd.uniform(0, 0.85), "phi": rnd.uniform(0, 2 * np.pi), "workers": workers,
                 "workers2": rnd.choice([1, 2, 3, 6]), "filter": rnd.choice(["hamming", "hamming", "ramp", "shepp-logan"]),
                 "lin_a": rnd.choice([2.0, -0.5, 3.25]), "mseed": rnd.getrandbits(32),
@@ -298,9 +298,24 @@ class C19(object):
         if viol is None:
             try:
                 ref, _ = self.recon(sino, omega, pad, shift, 1, None, desc, simulate=False)             # one thread, no pool
+                # the same sinogram in another memory layout (Fortran order, strided view) / the angles as a list
+                L = desc.get("sino_layout", "c")
+                sino_l, omega_l = sino, omega
+                if L == "f":
+                    sino_l = np.asfortranarray(sino)
+                elif L == "view":
+                    big = np.full((sino.shape[0], 2 * sino.shape[1]), 7.0)
+                    big[:, ::2] = sino
+                    sino_l = big[:, ::2]
+                elif L == "list_angles":
+                    omega_l = [float(x) for x in omega]
+                meas["sinogram_layout"] = {L: 1}
                 if mt:
                     sim0, _ = self.recon(sino, omega, pad, shift, workers, None, desc, simulate=True, strategy="rtc")
-                    sim, sched = self.recon(sino, omega, pad, shift, workers, None, desc, simulate=True)
+                    sim, sched = self.recon(sino_l, omega_l, pad, shift, workers, None, desc, simulate=True)
+                elif L != "c":
+                    sim0 = ref
+                    sim, _ = self.recon(sino_l, omega_l, pad, shift, 1, None, desc, simulate=False)
                 else:
                     sim0 = sim = ref
             except pysched.Deadlock as e:
